@@ -64,6 +64,10 @@ class E5(FullEvaluator):
                 return args[0].fliplr()
             if name == "flipud":
                 return args[0].flipud()
+            if name == "ndim" and len(args) == 1:
+                return Rat.const(2)                     # an image is a matrix of pixels
+            if name in ("asarray", "asanyarray") and len(args) == 1 and not kwargs:
+                return args[0]
             raise AnalysisError("E5: numpy.%s applied to an image (line %d)" % (name, node.lineno))
         if name == "linalg.inv" and len(args) == 1:
             A = args[0] if isinstance(args[0], Arr) else materialise(args[0])
@@ -108,7 +112,8 @@ class E5(FullEvaluator):
     def general_clip(self, args, node):
         """clip(v, lo, hi) with bounds affine in the extents, v affine in the pixel coordinates and the extents: decided over
         the whole domain (every extent >= 1, every pixel coordinate inside its raw / detector range).  A clamp that never acts
-        is the identity; one that can act stays an opaque clip(...) value, which no index or coordinate equals."""
+        is the identity, one that always acts is its bound; one that acts on a part of the domain stays an opaque clip(...)
+        value, which no index or coordinate equals."""
         from .poly import func_atom, mono_items
         v, lo, hi = args
 
@@ -167,7 +172,18 @@ class E5(FullEvaluator):
             inside_lo, inside_hi = nonneg_for_all_sizes(xmin - l_), nonneg_for_all_sizes(h_ - xmax)
             if inside_lo is None or inside_hi is None:
                 raise AnalysisError("E5: clip bounds `%s`, `%s` are not affine in the extents (line %d)" % (l_.key()[:40], h_.key()[:40], node.lineno))
-            out.append(x if (inside_lo and inside_hi) else func_atom("clip", x, l_, h_))
+            if inside_lo and inside_hi:
+                out.append(x)
+                continue
+            # a clamp that ALWAYS acts is decided too: v >= hi everywhere -> hi, v <= lo everywhere -> lo (for lo <= hi)
+            ordered = nonneg_for_all_sizes(h_ - l_)
+            above, below = nonneg_for_all_sizes(xmin - h_), nonneg_for_all_sizes(l_ - xmax)
+            if ordered and above:
+                out.append(h_)
+            elif ordered and below:
+                out.append(l_)
+            else:
+                out.append(func_atom("clip", x, l_, h_))
         return Arr(out)
 
     def clip_form(self, x, node):
